@@ -34,8 +34,26 @@ def new_enc():
 
 
 def systems():
+    """for every kind the SECOND system created in this process: an earlier one of the same kind has already been through all three
+    operators, so anything the library might remember per system type would show"""
     from symplyphysics.core.coordinate_systems.coordinate_systems import CoordinateSystem
-    return {k: CoordinateSystem(getattr(CoordinateSystem.System, k)) for k in KINDS}
+    from symplyphysics.core.fields.operators import gradient_operator, divergence_operator, curl_operator
+    from symplyphysics.core.fields.scalar_field import ScalarField
+    from symplyphysics.core.fields.vector_field import VectorField
+    from symplyphysics.core.vectors.vectors import Vector
+    out = {}
+    for k in KINDS:
+        first = CoordinateSystem(getattr(CoordinateSystem.System, k))
+        a, b, c = first.coord_system.base_scalars()
+        try:
+            gradient_operator(ScalarField.from_expression(a * b + c, first))
+            vf = VectorField.from_vector(Vector([a * b, b * c, a + c], first))
+            divergence_operator(vf)
+            curl_operator(vf)
+        except Exception:
+            pass
+        out[k] = CoordinateSystem(getattr(CoordinateSystem.System, k))
+    return out
 
 
 def domain(enc, kind, cs):
@@ -78,6 +96,16 @@ def jet(fn, idx, X):
     """first partial derivative of undefined fn wrt its idx-th argument, evaluated at X (as the Subs SymPy's chain rule produces)"""
     xi = sp.symbols("xi_1:4")
     return sp.Subs(sp.Derivative(fn(*xi), xi[idx]), xi, tuple(X))
+
+
+def grad_signs_field(kind, qs, kpar):
+    """(field, scale factors) -- the field contains sqrt(v**2) for a coordinate v that may be negative and for a free parameter"""
+    a, b, c = qs
+    if kind == "CARTESIAN":
+        return a * sp.sqrt(c**2) + sp.sqrt(kpar**2) * b + sp.sqrt(b**2) * c, [1, 1, 1]
+    if kind == "CYLINDRICAL":
+        return a * sp.sqrt(c**2) + sp.sqrt(kpar**2) * a * sp.sin(b) + sp.sqrt(b**2), [1, a, 1]
+    return sp.sqrt(b**2) * a + sp.sqrt(kpar**2) * a * sp.cos(c), [1, a * sp.sin(c), a]
 
 
 def decide(enc, q, name, exprs, dom, out, sample=None):
@@ -166,6 +194,44 @@ def work(item):
                 want = list(B * ccurl)
                 decide(enc, q, f"curl = Cartesian curl through the Jacobian:{kind}:{tagc}", [a - b for a, b in zip(got, want)], domain(enc, kind, cs), out,
                        {"identity": "curvilinear curl of components given in the local basis", "system": kind, "components": tagc})
+        elif what == "curl_at_point":
+            # the curl is a FIELD: evaluated at a point it takes the value its basis form has there (all three systems, generic components,
+            # a point with symbolic coordinates)
+            from symplyphysics.core.points.cartesian_point import CartesianPoint
+            from symplyphysics.core.points.cylinder_point import CylinderPoint
+            from symplyphysics.core.points.sphere_point import SpherePoint
+            enc = new_enc()
+            Fs = [sp.Function(f"F{i}")(*qs) for i in range(3)]
+            cu = curl_operator(VectorField.from_vector(Vector(Fs, cs)))
+            ps = sp.symbols("p1:4", real=True)
+            P = {"CARTESIAN": CartesianPoint, "CYLINDRICAL": CylinderPoint, "SPHERICAL": SpherePoint}[kind](*ps)
+            got = pad(cu(P).components)
+            want = [sp.sympify(c).subs(dict(zip(qs, ps)), simultaneous=True) for c in pad(cu.apply_to_basis().components)]
+            dom = []
+            if kind != "CARTESIAN":
+                dom.append(enc.tr(ps[0]) > 0)
+            if kind == "SPHERICAL":
+                s_, c_ = enc.sincos(ps[2])
+                dom += [s_ > 0, c_ != 0]
+            leftovers = [str(b) for g_ in got for b in sp.sympify(g_).atoms(BaseScalar)]
+            if leftovers:
+                out.append({"name": f"curl F evaluated at a point = its basis form at that point:{kind}", "verdict": "candidate",
+                            "why": f"the value at the point still contains the coordinate variables {sorted(set(leftovers))}"})
+            else:
+                decide(enc, q, f"curl F evaluated at a point = its basis form at that point:{kind}", [a - b for a, b in zip(got, want)], dom, out,
+                       {"identity": "curl(F)(P) = curl(F) basis form with the coordinates of P", "system": kind})
+        elif what == "grad_signs":
+            # fields whose value depends on the SIGN of a coordinate or of a parameter (sqrt(z**2), sqrt(k**2)): the gradient is the
+            # textbook one, (df/dq1, df/dq2 / h2, df/dq3 / h3), wherever those are non-zero -- in particular for negative values
+            enc = new_enc()
+            kpar = sp.Symbol("k", real=True)
+            a, b, c = qs
+            fe, h = grad_signs_field(kind, qs, kpar)
+            got = pad(gradient_operator(ScalarField.from_expression(fe, cs)).components)
+            want = [sp.diff(fe, v) / hv for v, hv in zip(qs, h)]
+            nz = [enc.tr(v) != 0 for v in (kpar, b, c)]
+            decide(enc, q, f"grad of a sign-sensitive field = textbook gradient:{kind}", [x - y for x, y in zip(got, want)], domain(enc, kind, cs) + nz, out,
+                   {"identity": "grad of a field containing sqrt(q**2), sqrt(k**2)", "system": kind, "field": str(fe)})
         elif what == "div_curl":
             enc = new_enc()
             Fs = [sp.Function(f"F{i}")(*qs) for i in range(ncomp)]
@@ -273,6 +339,28 @@ try:
             got = [num(v) for v in pad(curl_operator(vf).apply_to_basis().components)]
             want = [num(v) for v in (B * sp.Matrix([dV[2][1] - dV[1][2], dV[0][2] - dV[2][0], dV[1][0] - dV[0][1]]))]
             print("curl", got, "Cartesian", want); bad = any(abs(a - b) > 1e-18 for a, b in zip(got, want))
+    elif what == "curl_at_point":
+        from symplyphysics.core.points.cartesian_point import CartesianPoint
+        from symplyphysics.core.points.cylinder_point import CylinderPoint
+        from symplyphysics.core.points.sphere_point import SpherePoint
+        cu = curl_operator(VectorField.from_vector(Vector([rnd_poly(qs) for _ in range(3)], cs)))
+        P = {{"CARTESIAN": CartesianPoint, "CYLINDRICAL": CylinderPoint, "SPHERICAL": SpherePoint}}[kind](*[pt[v] for v in qs])
+        got = pad(cu(P).components); want = [num(v) for v in pad(cu.apply_to_basis().components)]
+        print("curl(F)(P) =", got, " basis form at P =", want)
+        bad = any(sp.sympify(g).free_symbols or sp.sympify(g).atoms(sp.vector.scalar.BaseScalar) or abs(sp.N(g, 30) - w) > 1e-20 for g, w in zip(got, want))
+    elif what == "grad_signs":
+        kpar = sp.Symbol("k", real=True)
+        fe, h = c12.grad_signs_field(kind, qs, kpar)
+        got_e = pad(gradient_operator(ScalarField.from_expression(fe, cs)).components)
+        want_e = [sp.diff(fe, v) / hv for v, hv in zip(qs, h)]
+        for kv in (sp.Rational(3, 2), sp.Rational(-3, 2)):
+            for s2 in (1, -1):
+                for s3 in (1, -1):
+                    if kind == "SPHERICAL" and s3 < 0: continue       # the polar angle stays in (0, pi)
+                    ptx = {{qs[0]: sp.Rational(7, 5), qs[1]: s2 * sp.Rational(2, 3), qs[2]: s3 * sp.Rational(4, 5), kpar: kv}}
+                    g_ = [sp.N(sp.sympify(e).subs(ptx), 30) for e in got_e]; w_ = [sp.N(sp.sympify(e).subs(ptx), 30) for e in want_e]
+                    if any(abs(x_ - y_) > 1e-20 for x_, y_ in zip(g_, w_)):
+                        bad = True; print("grad at", ptx, "=", g_, "textbook", w_)
     elif what == "div_curl":
         vf = VectorField.from_vector(Vector([rnd_poly(qs) for _ in range(ncomp)], cs))
         v = num(divergence_operator(curl_operator(vf))); print("div(curl F) =", v); bad = abs(v) > 1e-20
@@ -314,6 +402,8 @@ def run(ctx):
         items.append(("curl_grad", kind, 3, timeout))
         items.append(("agree_grad", kind, 3, timeout))
         items.append(("div_grad", kind, 3, timeout))
+        items.append(("curl_at_point", kind, 3, timeout))
+        items.append(("grad_signs", kind, 3, timeout))
         for nc in (0, 3):
             items.append(("jac_div", kind, nc, timeout))
             items.append(("jac_curl", kind, nc, timeout))
